@@ -229,7 +229,7 @@ class Interp(object):
         if finfo.kind != "static" and finfo.cls is not None:
             full_args = [self_obj] + full_args
         caller = self.ctx.fn_stack[-1] if self.ctx.fn_stack else None
-        use_contract = (con is not None and con.modular and not self.inline_all
+        use_contract = (con is not None and con.modular and (not self.inline_all or con.force_modular)
                         and finfo.qualname != self.top and finfo.qualname not in self.force_inline)
         if use_contract:
             self.call_edges.append((caller, finfo.qualname, "contract"))
